@@ -38,7 +38,29 @@ Theorem C03_bad_coefficients_at_most_one :
   forall (pre post : list eleaf) (e : F) (cands : list F), e <> f0 -> NoDup cands ->
     (length (filter (fun a => eok (pre ++ (a, e) :: post)) cands) <= 1)%nat.
 Proof. exact bad_coefficients_at_most_one. Qed.
+
+(* THE statement of C03, end to end: Go wrapper (pre-marking of wrong-length signatures and identity
+   keys) + C leaf processing (canonical read, G1 membership, multiplication by the coefficient) + tree:
+   for every non-empty list of (key scalar, signature bytes, coefficient), if the coefficients are good
+   for the error vector of this input, BatchVerifyBLSSignaturesOneMessage returns at each index exactly
+   what Verify returns for that key and signature. *)
+Theorem C03_batch_agrees_with_verify :
+  forall eta (es : list entry), es <> [] ->
+    good (S (length es)) (map (err_of eta) es) ->
+    go_batch (map (fun e => Some (public_key (e_sk e))) es) (map e_sig es) good_hasher (eta, t1_0) (map e_rho es)
+    = BOk (map (vb eta) es).
+Proof. exact batch_agrees_with_verify. Qed.
+
+(* on an input error every returned boolean is false *)
+Theorem C03_batch_errors_all_false :
+  forall pks sigs hs h rhos,
+    match go_batch pks sigs hs h rhos with
+    | BOk _ => True
+    | BErrEmptyList v | BErrInvalidInputs v | BErrHasher _ v | BErrNotBLSKey v => v = repeat false (List.length sigs)
+    end.
+Proof. exact batch_errors_all_false. Qed.
 End C03.
+Print Assumptions C03_batch_agrees_with_verify.
 Print Assumptions C03_tree_exact.
 Print Assumptions C03_node_check_is_eok.
 Print Assumptions C03_bad_coefficients_at_most_one.
